@@ -18,7 +18,7 @@ for d in sorted(glob.glob(os.path.join(V, 'seeded', 'prefix-*'))):
                 res.append(f"{parts[0]} {parts[1]} `{' '.join(parts[3:])}` ({variant}, {parts[2].replace('secs=','')} s)")
     rows_prefix.append(f"| {name} | {'<br>'.join(res)} |")
 rows = []
-for d in sorted(glob.glob(os.path.join(V, 'seeded', 'C??-m?'))):
+for d in sorted(glob.glob(os.path.join(V, 'seeded', 'C??-m?')) + glob.glob(os.path.join(V, 'seeded', 'F??-b?'))):
     m = json.load(open(os.path.join(d, 'meta.json')))
     name = os.path.basename(d)
     res = m.get('results_in_order') or (m.get('results_first_run', []) + m.get('results_after_strengthening', []))
